@@ -299,6 +299,62 @@ func checkC10(c *Ctx) error {
 			}
 			c.Add("quiet_twins_compared", 1)
 		}
+		// the same invocation spelled differently (--input=x, -ix, flags before the inputs, --stub=true, -q=true) is the same invocation
+		if i%3 == 0 && j.cs.outPrep == nil {
+			var alt []string
+			alt = append(alt, "build")
+			for _, f := range j.flags {
+				switch f {
+				case "--stub":
+					alt = append(alt, "--stub=true")
+				case "--quiet":
+					alt = append(alt, "-q=true")
+				case "-q":
+					alt = append(alt, "--quiet")
+				default:
+					alt = append(alt, f+"=true")
+				}
+			}
+			alt = append(alt, "--output="+outRel)
+			for k, p := range pats {
+				switch k % 3 {
+				case 0:
+					alt = append(alt, "--input="+p)
+				case 1:
+					alt = append(alt, "-i"+p)
+				default:
+					alt = append(alt, "--input", p)
+				}
+			}
+			d3 := w.TempDir("c10a")
+			_ = exec.Command("cp", "-a", dir+"/.", d3+"/").Run()
+			out3 := filepath.Join(d3, outRel)
+			switch j.pre {
+			case "absent":
+				_ = os.Remove(out3)
+			case "sentinel":
+				if j.cs.outRel == "" {
+					write(out3, sentinel)
+				}
+			case "long-sentinel":
+				if j.cs.outRel == "" {
+					write(out3, longSentinel)
+				}
+			case "symlink-to-sentinel":
+				if j.cs.outRel == "" {
+					_ = os.Remove(out3)
+					write(filepath.Join(d3, "real-target.go"), sentinel)
+					_ = os.Symlink(filepath.Join(d3, "real-target.go"), out3)
+				}
+			}
+			runA := cli.Do(w, "", nil, d3, out3, alt...)
+			c.Add("flag_spelling_twins_compared", 1)
+			if runA.Res.Exit != run.Res.Exit || runA.Res.Stdout != run.Res.Stdout || followState(out3) != followState(out) {
+				files["alt-args.txt"] = strings.Join(alt, " ")
+				files["alt-stdout.txt"] = runA.Res.Stdout
+				c.Violate(sig("flag-spelling-changes-behaviour"), fmt.Sprintf("%s: `%s` (exit %d) and `%s` (exit %d) differ in exit status, report or file effect\n%s", j.cs.name, strings.Join(args, " "), run.Res.Exit, strings.Join(alt, " "), runA.Res.Exit, firstDiff(run.Res.Stdout, runA.Res.Stdout)), files)
+			}
+		}
 		if i%97 == 0 {
 			c.Sample(map[string]any{"case": j.cs.name, "flags": j.flags, "pre_state": j.pre, "exit": run.Res.Exit, "list": run.Rep.List, "out_before": run.Before, "out_after": run.After})
 		}
